@@ -199,6 +199,18 @@ impl UnrepairedDatabaseHeader {
         })
     }
 
+    // Whether the region counts as stored, before finalize() reconciles them with the file
+    // length, describe `layout`. Compares the raw counts: stored ones may be torn, and are only
+    // validated for a cleanly shut down database.
+    pub(super) fn stored_layout_matches(&self, layout: &DatabaseLayout) -> bool {
+        let trailing_pages = layout
+            .trailing_region_layout()
+            .map(RegionLayout::num_pages)
+            .unwrap_or_default();
+        layout.num_full_regions() == self.inner.full_regions
+            && trailing_pages == self.inner.trailing_partial_region_pages
+    }
+
     // True if the on-disk primary slot did not verify (its checksum is corrupt). The in-memory
     // copy of a clean primary slot wouldn't reveal this, so it must be read from disk.
     pub(super) fn primary_corrupted(&self) -> bool {
